@@ -32,6 +32,10 @@ def run(ctx):
             except Exception:
                 docs[r[0]] = None
     meta = core.merge_meta(outs)
+    ctx.wire_valid = {}
+    for r in core.read_tsv(outs, "valid.tsv"):
+        if len(r) >= 2:
+            ctx.wire_valid[r[0]] = r[1]
     answers = core.run_driver(cases, ctx, name="resp")
     if len(answers) != len(cases):
         ctx.broken.append({"kind": "driver-desync", "detail": "%d cases, %d answers" % (len(cases), len(answers))})
@@ -51,7 +55,11 @@ def spec_of(gens, cid):
     pkg = cid.split("#")[0]
     for g in gens:
         if g[0] == pkg and len(g) > 4:
-            return bytes.fromhex(g[4]).decode("utf-8", "replace")
+            sp = bytes.fromhex(g[4]).decode("utf-8", "replace")
+            if len(g) > 5 and g[5]:
+                # the package was generated over an earlier revision: both specs are the input
+                return json.dumps({"spec": sp, "generated_over_earlier_revision": json.loads(bytes.fromhex(g[5]).decode("utf-8", "replace"))})
+            return sp
     return None
 
 
@@ -167,6 +175,13 @@ def check(ctx, prop, modules, theorems, rule, explanation, assumptions, level):
                 elif prop == "C09":
                     okr = mm.group(1) == mm.group(2)
                     detail = {"sent": mm.group(1)[:600], "parsed": mm.group(2)[:600], "wire": mm.group(3)[:600]}
+                    # second sentence of the property: the wire request under a validator that is not goag's
+                    wv = ctx.wire_valid.get(cid, "skip:not-validated")
+                    wk = wv.split(":")[0]
+                    st["kinds"]["wire-" + (wv if wk == "skip" else wk)] = st["kinds"].get("wire-" + (wv if wk == "skip" else wk), 0) + 1
+                    if wk == "invalid":
+                        okr = False
+                        detail["request_validator"] = bytes.fromhex(wv[8:]).decode("utf-8", "replace")[:400]
                     distinct.add((cid.split("#")[0], mm.group(3)))
                 else:
                     okr = mm.group(4) == mm.group(5) and mm.group(4) != ""
